@@ -849,7 +849,10 @@ func (r *Runner) compare(i int, s *Step, prim *Node, t0 *Transcript, n *Node, t 
 	if sameEngine {
 		prop = "C33"
 	}
-	if a, b := t0.Summary(), t.Summary(); a != b {
+	if s.SameEngineOnly && !sameEngine {
+		// a step whose outcome may legitimately depend on the engine (e.g. a recursion a few frames below the call-depth limit):
+		// compared with the first node of the same engine only
+	} else if a, b := t0.Summary(), t.Summary(); a != b {
 		r.violate(prop, "replica.outcome", i, n.Cfg.Name, "outcome-diverged", "outcome differs between %s(%s) and %s(%s):\n%s", prim.Cfg.Name, prim.Cfg.Engine, n.Cfg.Name, n.Cfg.Engine, lineDiff(a, b))
 		return
 	}
@@ -875,6 +878,12 @@ func (r *Runner) compare(i int, s *Step, prim *Node, t0 *Transcript, n *Node, t 
 	n.lastT, n.lastStep = t, i
 	if tref == nil {
 		return
+	}
+	if s.SameEngineOnly && !sameEngine {
+		if a, b := tref.Summary(), t.Summary(); a != b {
+			r.violate("C33", "replica.outcome", i, n.Cfg.Name, "outcome-diverged", "outcome differs between %s(%s) and %s(%s):\n%s", ref.Cfg.Name, ref.Cfg.Engine, n.Cfg.Name, n.Cfg.Engine, lineDiff(a, b))
+			return
+		}
 	}
 	if a, b := tref.WritesDigest(), t.WritesDigest(); a != b {
 		r.violate("C33", "replica.writes", i, n.Cfg.Name, "writes-order", "register write sequence differs between same-engine nodes %s and %s (%d vs %d writes)", ref.Cfg.Name, n.Cfg.Name, len(tref.Writes), len(t.Writes))
